@@ -345,6 +345,48 @@ def lkGet (readDesc : Nat → Option LkcdDesc) (shift : Nat) (key : Nat → Nat)
     if st.lastOffset = st.endOffset then (st, .nodata)
     else lkSearch readDesc shift key pfn fuel st
 
+/-! ### Transient read failures
+
+`read_page_desc` can fail for reasons that say nothing about the file (`KDUMP_ERR_SYSTEM` from a `pread` that returns
+`EIO`, `KDUMP_ERR_BUSY`).  `bad` is the file offset at which the next descriptor read fails; the result `none` stands
+for that failure status.  Only `KDUMP_ERR_EOF` marks the end of the stream (`end_offset`): after a transient failure
+the scan state is what the descriptors read so far have made it, and the next call resumes there. -/
+
+def lkSearchF (readDesc : Nat → Option LkcdDesc) (shift : Nat) (key : Nat → Nat) (pfn : Nat) (bad : Nat) :
+    Nat → LkcdState → LkcdState × Option LkcdFind
+  | 0, st => (st, some .nodata)
+  | fuel+1, st =>
+    let off := st.lastOffset
+    if off = bad then (st, none)
+    else
+    match readDesc off with
+    | none => ({ st with endOffset := off }, some .eof)
+    | some dp =>
+      if dp.flags &&& 4 ≠ 0 then ({ st with endOffset := off }, some .nodata)     -- DUMP_END
+      else
+        let cur := dp.address / 2^shift
+        match lkLookup st.index (key cur) with
+        | some _ => (st, some .dup)
+        | none =>
+          let st' : LkcdState :=
+            { st with index := st.index ++ [(key cur, off)],
+                      maxPfn := if cur ≥ st.maxPfn then cur + 1 else st.maxPfn,
+                      lastOffset := off + 16 + dp.size }
+          if cur = pfn then (st', some (.found off dp)) else lkSearchF readDesc shift key pfn bad fuel st'
+
+/-- `get_page_desc` while the descriptor at `bad` cannot be read -/
+def lkGetF (readDesc : Nat → Option LkcdDesc) (shift : Nat) (key : Nat → Nat) (bad : Nat) (fuel : Nat)
+    (st : LkcdState) (pfn : Nat) : LkcdState × Option LkcdFind :=
+  match lkLookup st.index (key pfn) with
+  | some off =>
+    if off = bad then (st, none)
+    else match readDesc off with
+    | some dp => (st, some (.found off dp))
+    | none => (st, some .eof)
+  | none =>
+    if st.lastOffset = st.endOffset then (st, some .nodata)
+    else lkSearchF readDesc shift key pfn bad fuel st
+
 /-- `lkcd_read_page` after the descriptor was found (`compression` from the header) -/
 def lkLocate (compression ps maxPageSize : Nat) (off : Nat) (dp : LkcdDesc) : PageLoc :=
   let ty := dp.flags &&& 3
